@@ -56,6 +56,8 @@ pub const EXPR_ERRORS: &[(&str, &str)] = &[
     ("printing a self-containing list", "print(cyc)"),
     ("slot fails to parse", "$\"a ${1 +} b\""),
     ("slot fails", "$\"${undef_s}\""),
+    ("slot holds an unexpected character", "$\"a ${1 ~ 2} b\""),
+    ("slot holds an invalid escape", "$\"${\"\\q\"}\""),
     ("a function called from a slot fails", "$\"a${sf_()}b\""),
     ("a function called from a call fails", "id(sf_())"),
 ];
